@@ -25,6 +25,7 @@ type zzStream struct {
 	writes      int
 	failAt      int // fail the k-th Write (1-based) when > 0
 	failFrom    int // fail the k-th Write and every later one (a broken pipe that was not noticed yet)
+	wrote       chan struct{} // signalled (without blocking) after every successful Write
 	eof         bool
 	onWrite     func(p []byte) // called (outside the stream lock) before Write returns
 	closeErr    bool           // Close reports an error (the connection is closed nevertheless)
@@ -34,7 +35,7 @@ type zzStream struct {
 var errZZClosed = errors.New("use of closed connection")
 
 func newZZStream() *zzStream {
-	return &zzStream{in: make(chan []byte, 16), closed: make(chan struct{})}
+	return &zzStream{in: make(chan []byte, 16), closed: make(chan struct{}), wrote: make(chan struct{}, 64)}
 }
 
 func (s *zzStream) Read(p []byte) (int, error) {
@@ -83,6 +84,10 @@ func (s *zzStream) Write(p []byte) (int, error) {
 	s.out = append(s.out, p...)
 	hook := s.onWrite
 	s.mu.Unlock()
+	select {
+	case s.wrote <- struct{}{}:
+	default:
+	}
 	if hook != nil {
 		hook(p)
 	}
@@ -138,4 +143,12 @@ func (s *zzStream) sentMessages() []net.Message {
 		out = append(out, m)
 	}
 	return out
+}
+
+// waitSent blocks until at least n messages have been written to the stream (and no longer): what a
+// client does when it waits for an answer before its next request.
+func (s *zzStream) waitSent(n int) {
+	for len(s.sentMessages()) < n {
+		<-s.wrote
+	}
 }
